@@ -8,7 +8,7 @@ import HmsProofs.Lemmas.CheckTemplate
 Property theorems only; the proofs are in `HmsProofs/Lemmas/Check*.lean`.
 
 * `Hms.Check.check : PProg → List Diag` is the algorithmic checker (model of the Go analyzer
-  after the repairs A1–A7, A9, A10, F1; tied to the real analyzer by `./check.py C03`),
+  after the repairs A1–A7, A9, A10, F1, S1; tied to the real analyzer by `./check.py C03`),
 * `Hms.Check.WellTyped` / `ProgOK` / `HasType` / `StmtOK` … is the declarative typing relation
   (the specification, `Hms/Check/Typing.lean`).
 
@@ -103,6 +103,39 @@ theorem argument_mismatch_rejected (Γ : Ctx) (ps : List Ty) (rest : Option Ty) 
 theorem arity_mismatch_rejected (Γ : Ctx) (s : Bool) (base : PExpr) (args : PExprs) (ps : List (String × Ty)) (ret : Ty)
     (hc : callee (checkExpr Γ true base).ty = .fn ps ret) (hlen : args.length ≠ ps.length) :
     ⟨.arity, .arity⟩ ∈ (checkExpr Γ s (.call base args)).errs := arity_mismatch Γ s base args ps ret hc hlen
+
+/-- `spawn` of a function value — a local, a parameter, a global, a builtin: whatever name is found
+in the variable scopes — instead of a function of the program (repair S1) -/
+theorem spawn_of_variable_rejected (Γ : Ctx) (s : Bool) (name : String) (args : PExprs) (t : Ty) (ps : List (String × Ty))
+    (ret : Ty) (hl : lookupTy name Γ.vars = some t) (hc : callee t = .fn ps ret) :
+    ⟨.spawnNonFunction, .spawnNonFunction⟩ ∈ (checkExpr Γ s (.spawn name args)).errs :=
+  spawn_non_function_fn Γ s name args t ps ret hl hc
+
+/-- the same for a variadic builtin (`spawn println(…)`) -/
+theorem spawn_of_variadic_variable_rejected (Γ : Ctx) (s : Bool) (name : String) (args : PExprs) (t : Ty) (ps : List Ty)
+    (rest ret : Ty) (hl : lookupTy name Γ.vars = some t) (hc : callee t = .var ps rest ret) :
+    ⟨.spawnNonFunction, .spawnNonFunction⟩ ∈ (checkExpr Γ s (.spawn name args)).errs :=
+  spawn_non_function_var Γ s name args t ps rest ret hl hc
+
+/-- a function value as an argument of a `spawn` -/
+theorem spawn_closure_argument_rejected (Γ : Ctx) (ps : List Ty) (rest : Option Ty) (a : PExpr) (as : PExprs)
+    (hk : (checkExpr Γ true a).ty.kind = .fn) :
+    ⟨.closureAcrossThreads, .closureAcrossThreads⟩ ∈ (checkSpawnArgs Γ ps rest (.cons a as)).errs :=
+  spawn_closure_arg Γ ps rest a as hk
+
+/-- `spawn` of something that is not callable -/
+theorem spawn_not_callable_rejected (Γ : Ctx) (s : Bool) (name : String) (args : PExprs)
+    (hc : callee (wrap true (identRes Γ name)).ty = .bad) :
+    ⟨.notCallable, .notCallable⟩ ∈ (checkExpr Γ s (.spawn name args)).errs := spawn_not_callable Γ s name args hc
+
+/-- a `spawn` has no value: its type is `null`, whatever is spawned (repair S1) -/
+theorem spawn_type_null (Γ : Ctx) (s : Bool) (name : String) (args : PExprs) :
+    (checkExpr Γ s (.spawn name args)).ty = .null := spawn_ty_null Γ s name args
+
+/-- … in particular there is no thread handle to `join` -/
+theorem spawn_join_rejected (Γ : Ctx) (s : Bool) (name : String) (args : PExprs) :
+    ⟨.unknownMember, .unknownMember⟩ ∈ (checkExpr Γ s (.member (.spawn name args) "join" .dot)).errs :=
+  spawn_no_member Γ s name args "join"
 
 /-- `return` of the wrong type -/
 theorem return_mismatch_rejected (Γ : Ctx) (e : PExpr) (rt : Ty) (m : Msg) (hr : Γ.ret = some rt)
@@ -347,6 +380,28 @@ example : hasErr (faulty [.letS "x" none (.list .nil)]) .implicitAny = true := b
 example : hasErr ⟨[], []⟩ .mainShape = true := by decide +kernel
 example : hasErr ⟨[], [⟨"main", [("a", .name "int")], .name "null", 0, body []⟩]⟩ .mainShape = true := by decide +kernel
 example : hasErr ⟨[], [⟨"main", [], .name "int", 0, .mk .nil (.int 1)⟩]⟩ .mainShape = true := by decide +kernel
+
+/-- S1: `fn work(n: int) { } fn main() { spawn work(1); let h = spawn work(2); let k: null = h; }` is accepted … -/
+private def workFn : PFn := ⟨"work", [("n", .name "int")], .name "null", 0, body []⟩
+private def spawnE (f : String) (as : List PExpr) : PExpr := .spawn f (PExprs.ofList as)
+private def pSpawn (ss : List PStmt) : PProg := ⟨[], [workFn, mainFn ss]⟩
+
+example : check (pSpawn [.exprS (spawnE "work" [.int 1])]) = [] := by decide +kernel
+example : check (pSpawn [.exprS (spawnE "work" [.int 1]), .letS "h" none (spawnE "work" [.int 2]),
+    .letS "k" (some (.name "null")) (.ident "h")]) = [] := by decide +kernel
+example : WellTyped (pSpawn [.letS "h" none (spawnE "work" [.int 1])]) := check_sound_nil _ (by decide +kernel)
+/-- … `let f = work; spawn f(1);`, `spawn println(1);`, a function literal as an argument, `.join()` and a
+printed spawn are not -/
+example : hasErr (pSpawn [.letS "f" none (.ident "work"), .exprS (spawnE "f" [.int 1])]) .spawnNonFunction = true := by
+  decide +kernel
+example : hasErr (pSpawn [.exprS (spawnE "println" [.int 1])]) .spawnNonFunction = true := by decide +kernel
+example : hasErr (pSpawn [.exprS (spawnE "work" [.lambda [] (.name "null") (body [])])]) .closureAcrossThreads = true := by
+  decide +kernel
+example : hasErr (pSpawn [.letS "h" none (spawnE "work" [.int 1]), .exprS (.call (.member (.ident "h") "join" .dot) .nil)])
+    .unknownMember = true := by decide +kernel
+example : hasErr (pSpawn [.exprS (call "println" [spawnE "work" [.int 1]])]) .nullArgument = true := by decide +kernel
+example : hasErr (pSpawn [.letS "x" none (.int 1), .exprS (spawnE "x" [])]) .notCallable = true := by decide +kernel
+example : hasErr (pSpawn [.exprS (spawnE "work" [])]) .arity = true := by decide +kernel
 
 example : Compatible true (.fn [("a", .int), ("b", .list .never)] .never) (.fn [("a", .any), ("b", .list .str)] (.opt .int)) :=
   (typecheck_decides_compatibility _ _ _).mp (by decide +kernel)
